@@ -1,12 +1,13 @@
 """C01 - each dependency gets exactly the diagnostic its spec, cache and tags imply."""
 import json
+import re
 import random
 from . import common as C
 from . import ranges as R
 
 PID = 'C01'
 PINS = C.load_pins('C01')
-PROOF_FILES = ['Proofs/VerdictProofs.v', 'Proofs/CheckerPins.v', 'Props/C01.v']
+PROOF_FILES = ['Proofs/VerdictProofs.v', 'Proofs/CheckerPins.v', 'Proofs/GoOrderProofs.v', 'Props/C01.v']
 IMPORTS = ('From VL Require Import Lib.Bytes Lib.SemVer Model.CacheDb Spec.Ranges Spec.AbsCache Run.CacheRun Run.C01Run.\nOpen Scope Z_scope.')
 ECO = {'npm': 0, 'pnpm': 0, 'jsr': 0, 'crates': 1, 'go': 2, 'gha': 3}
 REGSTR = {'npm': 'npm', 'pnpm': 'pnpm_catalog', 'jsr': 'jsr', 'crates': 'crates_io', 'go': 'go_proxy', 'gha': 'github_actions'}
@@ -128,6 +129,23 @@ def run(tier, seed):
         fills, marked = rnd_fills(rnd, versions, tags, mark_p=0.0 if bad_target else 0.06)
         send.append({'eco': eco, 'name': 'p', 'spec': spec, 'ignore_pre': rnd.random() < 0.6, 'fills': fills})
         meta.append({'kind': 'raw', 'marked': marked, 'bad_target': bad_target})
+    # go.mod pseudo-versions (the two forms the matcher recognises) against a latest below, at and above their base
+    for i in range(60 if quick else 1500):
+        M_, m_, p_ = rnd.choice([0, 1, 2]), rnd.choice([0, 2]), rnd.choice([0, 3])
+        ts, h = rnd.choice(['20210101000000', '20240229235959']), rnd.choice(['abcdefabcdef', '0123456789ab'])
+        if rnd.random() < 0.5:
+            spec, base = f'v{M_}.0.0-{ts}-{h}', (M_, 0, 0)
+        else:
+            spec, base = f'v{M_}.{m_}.{p_ + 1}-0.{ts}-{h}', (M_, m_, p_ + 1)
+        lat = rnd.choice([base, (base[0], base[1], base[2] + 1), (base[0], base[1] + 1, 0), (base[0] + 1, 0, 0), (base[0], base[1], max(0, base[2] - 1)), (max(0, base[0] - 1), 9, 9)])
+        latest = 'v%d.%d.%d' % lat + (rnd.choice(['', '+incompatible']) if lat[0] >= 2 else '')
+        pre_latest = spec.count('-') == 2 and '-0.' in spec and rnd.random() < 0.3
+        if pre_latest:      # the vX.Y.Z-0.<ts>-<hash> form against a prerelease of its own base (prereleases are not ignored here)
+            latest = 'v%d.%d.%d' % base + rnd.choice(['-beta', '-0', '-rc.1', '-0.1'])
+        others = ['v%d.%d.%d' % (max(0, lat[0] - 1), 0, rnd.randrange(3))] if rnd.random() < 0.5 and lat[0] > 0 else []
+        fills, marked = rnd_fills(rnd, [latest] + others, None, mark_p=0.0)
+        send.append({'eco': 'go', 'name': 'example.com/m', 'spec': spec, 'ignore_pre': not pre_latest, 'fills': fills})
+        meta.append({'kind': 'gopseudo', 'marked': False})
     cases, err = C.run_harness('verdict', 0, 0, stdin='\n'.join(json.dumps(x) for x in send) + '\n', timeout=3000)
     if err:
         rep.broke('harness verdict', err)
@@ -157,6 +175,15 @@ def run(tier, seed):
             if last and dict(map(tuple, last[-1]['m'])).get(inp['spec']) == m['bad_target'] and d != [1, f'Invalid version format: {inp["spec"]}']:
                 rep.violation(f'{inp["eco"]}: the spec {inp["spec"]!r} is a cached dist-tag pointing at {m["bad_target"]!r} (not a version): '
                               f"'Invalid version format' is due, published {o['diags']}", {'input': inp, 'impl': o})
+        if m['kind'] == 'gopseudo' and o['latest'] is not None:
+            # a pseudo-version is always accepted as existing; by SemVer precedence it sorts below its base version, so
+            # 'Update available' is due exactly when it is below the cached latest
+            from .c07 import sv_parse, sv_key
+            S, L = sv_parse(inp['spec'].split('+')[0]), sv_parse(o['latest'].split('+')[0])
+            if S and L:
+                want = [2, f'Update available: {inp["spec"]} -> {o["latest"]}'] if sv_key(S) < sv_key(L) else None
+                if d != want:
+                    rep.violation(f'go: pseudo-version {inp["spec"]!r} against latest {o["latest"]!r}: published {o["diags"]}, the decision table gives {want}', {'input': inp, 'impl': o})
         key = f'({C.g_bytes(REGSTR[inp["eco"]])}, {C.g_bytes(inp["name"])})'
         if m['marked']:
             # open finding: a package marked nonexistent that still has versions keeps getting verdicts
